@@ -8,7 +8,10 @@ import (
 )
 
 func init() {
-	generators["C17"] = genC17
+	generators["C17"] = func(tier, out string, sum *Summary) {
+		runPrecision(sum, "beyond-float-precision")
+		genC17(tier, out, sum)
+	}
 	generators["C19"] = func(tier, out string, sum *Summary) {
 		genSpecCases("C19", tier, out, sum, &Gen{Lets: true, Funcs: true, letBias: true}, 3)
 		c19Direct(sum)
@@ -416,6 +419,18 @@ func genC17(tier, out string, sum *Summary) {
 			c.sum.count("spelled-identities")
 			if !sameObs(ol, or_, true) {
 				c.sum.direct("identity spelled", pr[0], doc, fmt.Sprintf("%q gives %s but %q gives %s", pr[0], describe(ol), pr[1], describe(or_)))
+			}
+		}
+	}
+	// a.b = a | b also when a is null and b is a multi-select whose members would fail on null: nothing is evaluated
+	for _, pr := range [][2]string{{"m.[length(@), b]", "m | [length(@), b]"}, {"m.{k: abs(@), l: b}", "m | {k: abs(@), l: b}"}, {"p[*].z.[length(@), `1`]", "p[*].z | [*].[length(@), `1`]"}, {"p[0].z.[abs(@), @]", "p[0].z | [abs(@), @]"},
+		{"m.[$undef, b]", "m | [$undef, b]"}, {"m.{k: $undef, l: `1`}", "m | {k: $undef, l: `1`}"}, {"p[*].[length(z), `1`]", "map(&[length(z), `1`], p)"}, {"q.[length(@), b]", "q | [length(@), b]"}} {
+		for _, d := range []string{`{"p": [{"z": null}, {"y": 1}], "q": "ab"}`, `{"m": null, "p": [], "q": [1]}`, `{"p": [{"z": "s"}], "q": null}`} {
+			doc := jsonDoc(d)
+			ol, or_ := search(pr[0], doc), search(pr[1], doc)
+			c.sum.count("null-subject-multiselect")
+			if !sameObs(ol, or_, false) {
+				c.sum.direct("identity null-subject", pr[0], doc, fmt.Sprintf("%q gives %s but %q gives %s", pr[0], describe(ol), pr[1], describe(or_)))
 			}
 		}
 	}
